@@ -53,6 +53,7 @@ var guardsAssumptions = []string{
 type guardsOpts struct {
 	rule     func(kind string) string // obligation kind -> rule id ("" = do not report this kind)
 	loopRule string                   // rule id for loop progress ("" = skip loops)
+	nest     bool                     // also require constant bounds for loops nested in loops (linear time)
 	excluded map[string]string        // obligation key -> reason: failing obligations with this key are excluded from the claim (note), not reported
 	only     func(f *ssa.Function) bool
 	rootsCat string
@@ -128,6 +129,9 @@ func runGuards(c *Ctx, roots []*ssa.Function, o guardsOpts) (scope []*ssa.Functi
 			switch lp.Status {
 			case guards.Proved:
 				r.OK(o.loopRule, key, P.Rel(lp.Pos), want, lp.Why, true)
+				if !o.nest {
+					continue
+				}
 				if lp.Depth > 1 && lp.InputBound {
 					r.Bad(o.loopRule+".nest", key, P.Rel(lp.Pos), "a loop nested in another loop has a constant bound (linear time)", lp.Why)
 				} else if lp.Depth > 1 {
